@@ -40,8 +40,14 @@ def is_pow2(fr):
     return (n & (n - 1)) == 0 and (d & (d - 1)) == 0 and (n == 1 or d == 1)
 
 
-def ref_pdict(tree):
-    """REFERENCE decomposition of a point tree: what the Point algebra of /repo is specified to return (the Python
+class Inexact(Exception):
+    """an intermediate coefficient of the tree is not a float: IEEE arithmetic would round, the exact model would not"""
+
+
+def ref_pdict(tree, exact=False):
+    """(exact=True: raise Inexact unless every intermediate coefficient is exactly representable as a float, so that
+    the implementation's float arithmetic and the model's rational arithmetic must agree bit for bit.)
+    REFERENCE decomposition of a point tree: what the Point algebra of /repo is specified to return (the Python
     twin of Model/Func.v [pt] = Terms.compileP): + and - merge and prune, unary -, scalar * and / rescale every entry
     without pruning.  Ordered list of (leaf id, Fraction).  The oracle bookkeeping (and its model, whose points are
     these dictionaries) is entitled to assume that a Point object has exactly this decomposition."""
@@ -65,22 +71,34 @@ def ref_pdict(tree):
 
     def scale(c, a):
         return [(k, v * c) for k, v in a]
+    def ok(a):
+        if exact:
+            for _, v in a:
+                try:
+                    if Fraction(float(v)) != v:
+                        raise Inexact(tree)
+                except OverflowError:
+                    raise Inexact(tree)
+        return a
+    R = lambda t: ref_pdict(t, exact)
     if h == "PZero":
         return []
     if h == "PVar":
         return [(tree[1], Fraction(1))]
     if h == "PAdd":
-        return prune(merge(ref_pdict(tree[1]), ref_pdict(tree[2])))
+        return prune(ok(merge(R(tree[1]), R(tree[2]))))
     if h == "PSub":
-        return prune(merge(ref_pdict(tree[1]), scale(Fraction(-1), ref_pdict(tree[2]))))
+        return prune(ok(merge(R(tree[1]), scale(Fraction(-1), R(tree[2])))))
     if h == "PNeg":
-        return scale(Fraction(-1), ref_pdict(tree[1]))
+        return scale(Fraction(-1), R(tree[1]))
     if h == "PScalL":
-        return scale(F(tree[1]), ref_pdict(tree[2]))
+        return ok(scale(F(tree[1]), R(tree[2])))
     if h == "PScalR":
-        return scale(F(tree[2]), ref_pdict(tree[1]))
+        return ok(scale(F(tree[2]), R(tree[1])))
     if h == "PDiv":
-        return scale(F(1 / tree[2]), ref_pdict(tree[1]))
+        if exact and Fraction(1) / F(tree[2]) != F(1 / tree[2]):
+            raise Inexact(tree)
+        return ok(scale(F(1 / tree[2]), R(tree[1])))
     raise ValueError(h)
 
 
@@ -227,6 +245,19 @@ class World(object):
                 self.point_problem = dict(clause="P1", role=role, tree=tree, decomposition=got,
                                           why="lookup by the raw dictionary and by the pruned dictionary disagree")
 
+    def check_after(self, tree, p, role):
+        """add_point prunes the objects of the recorded triple IN PLACE: after the call the object handed in has its
+        reference decomposition, or exactly that decomposition without its ZERO entries -- a non-zero coefficient,
+        however small, never disappears (the model prunes with Qeq_bool q 0)."""
+        if self.point_problem is not None or self.repair:
+            return
+        got = [(k, v.v) for k, v in self.dump_p(p)]
+        want = ref_pdict(tree)
+        if got != want and got != [(k, v) for k, v in want if v != 0]:
+            self.point_problem = dict(clause="P2", role=role, tree=tree, decomposition_after_call=got, reference=want,
+                                      why="after the call the recorded object is neither its reference decomposition nor "
+                                          "that decomposition with exactly the zero entries removed")
+
     def _query(self, tree, f=None):
         from PEPit.tools.dict_operations import prune_dict
         p = self.build_point(tree)
@@ -299,11 +330,14 @@ class World(object):
             lit = "(%s %s %s)" % (k, coq_nat(op[1]), coq_pterm(op[2]))
             if k == "Oracle":
                 g, v = f.oracle(p)
+                self.check_after(op[2], p, "query")
                 return lit, [self.dump_p(g), self.dump_e(v)]
             if k == "Gradient":
                 g = f.gradient(p)
+                self.check_after(op[2], p, "query")
                 return lit, [self.dump_p(g)]
             v = f.value(p)
+            self.check_after(op[2], p, "query")
             return lit, [self.dump_e(v)]
         if k in ("Stationary", "Fixed", "AddPoint") and "skip-zero-function" in self.repair \
                 and not prune_dict(self.funcs[op[1]].decomposition_dict):
@@ -323,7 +357,15 @@ class World(object):
             self.check_point(op[3], g, None, "add_point g")
             lit = "(AddPoint %s %s %s %s)" % (coq_nat(op[1]), coq_pterm(op[2]), coq_pterm(op[3]),
                                                coq_edict(self.dump_e(v)))
+            want_v = [(e, to_fraction(q)) for e, q in op[4] if q != 0] if len(set(e for e, _ in op[4])) == len(op[4]) else None
             f.add_point((x, g, v))
+            self.check_after(op[2], x, "add_point x")
+            self.check_after(op[3], g, "add_point g")
+            if want_v is not None and not self.repair and self.point_problem is None:
+                got_v = [(k[1], q.v) for k, q in self.dump_e(v)]
+                if got_v != want_v:
+                    self.point_problem = dict(clause="P2", role="add_point value", decomposition_after_call=got_v,
+                                              reference=want_v, why="a non-zero coefficient of the recorded value vanished")
             return lit, []
         raise ValueError(op)
 
@@ -461,6 +503,10 @@ def check_inv(state, val, world=None, max_combos=200000):
         for (x, g, v) in stat:
             if g != () or (x, g, v) not in pts:
                 return dict(clause="I4", function=fi, why="stationary sample with a non-empty gradient / not in list_of_points")
+        # list_of_stationary_points = exactly the samples whose gradient dictionary is empty (after EXACT pruning:
+        # the dumps are exact rationals, a coefficient of 1e-9 or 2^-60 is not zero), in order
+        if [t for t in pts if t[1] == ()] != list(stat):
+            return dict(clause="I4", function=fi, why="list_of_stationary_points is not the sublist of samples with an empty gradient")
         if leaf:
             if tuple(w) != ((fi, 1),):
                 return dict(clause="I0", function=fi, why="leaf weights are not {self: 1}")
